@@ -19,7 +19,9 @@ if [ -n "$BINS" ]; then
   rc=${PIPESTATUS[0]}
   if [ "$rc" -ne 0 ]; then echo "setup: release build failed"; exit 1; fi
 fi
-if jq -e '.checks[] | select(.property_id=="C05")' "$ROOT/MANIFEST.json" >/dev/null 2>&1; then
-  cargo build --offline --profile devopt --bin c05 2>&1 | tail -1
-fi
+for id in c01 c02 c03 c05; do
+  if jq -e --arg id "$id" '.checks[] | select((.property_id|ascii_downcase)==$id)' "$ROOT/MANIFEST.json" >/dev/null 2>&1; then
+    cargo build --offline --profile devopt --bin $id 2>&1 | tail -1
+  fi
+done
 echo "setup done"
